@@ -1,6 +1,6 @@
 (* C19 — property theorems only: each restates the full statement and is closed by the lemma proved in Proofs/. *)
 From Coq Require Import ZArith List Bool.
-From NPS Require Import ListAux PySlice NumpySem Scatter BuildIdx XorBroadcast View Index Assign Reduce Scan RaOps Heap Hash HashRun BitArr RLE RLEOps RLE2d DataClass RowsSpec AssignSpec MapSpec Denote IdxWidth.
+From NPS Require Import ListAux PySlice NumpySem Scatter BuildIdx XorBroadcast View Index Assign Reduce Scan RaOps Heap Hash HashRun BitArr RLE RLEOps RLE2d DataClass RowsSpec AssignSpec MapSpec Denote IdxWidth Shape.
 Import ListNotations.
 Open Scope Z_scope.
 
@@ -14,3 +14,25 @@ Theorem C19_excl_prefix_in32 :
        all_nonneg ls -> zsum ls < 2 ^ 31 -> Forall in32 (excl_prefix ls) /\ Forall in32 (cumsum ls).
 Proof. exact excl_prefix_in32. Qed.
 Print Assumptions C19_excl_prefix_in32.
+
+Theorem C19_wrap32_id :
+  forall x : Z, in32 x -> wrap32 x = x.
+Proof. exact wrap32_id. Qed.
+Print Assumptions C19_wrap32_id.
+
+Theorem C19_shape_codes_width_independent :
+  forall ls : list Z, all_nonneg ls -> zsum ls < 2 ^ 31 -> shape_codes_w wrap32 ls = shape_codes ls.
+Proof. exact shape_codes_width_independent. Qed.
+Print Assumptions C19_shape_codes_width_independent.
+
+Theorem C19_geometry_additions_width_independent :
+  forall ls : list Z,
+       all_nonneg ls ->
+       zsum ls < 2 ^ 31 ->
+       Forall (fun sl : Z * Z => add_w wrap32 (fst sl) (snd sl) = fst sl + snd sl)
+         (combine (excl_prefix ls) ls) /\
+       (forall i j : Z,
+        0 <= j ->
+        In (i, j) (combine (excl_prefix ls) ls) -> forall c : Z, 0 <= c < j -> add_w wrap32 i c = i + c).
+Proof. exact geometry_additions_width_independent. Qed.
+Print Assumptions C19_geometry_additions_width_independent.
